@@ -10,7 +10,11 @@ the pass in which they complain, and the EXPECT machine of asmerr.c with a count
 (M) DiagPos_MC, Fixed = all: for every placement (faulty line unknown mnemonic / wrong operand count / range
     overflow / undefined symbol / a warning, inside every sequence of <= 2 (quick) / 3 (thorough) constructs out of
     REPT IRP IRPN IRPC WHILE MACRO, 0..1 clean body lines before it, after 0..2 continuation lines; in include
-    files of depth 1..3; in a file included from inside a construct) and every EXPECT program (all announcements of
+    files of depth 1..3; in a file included from inside a construct; AFTER a construct has completed - every kind
+    and pair of kinds (thorough: triples), with and without an INCLUDE as innermost body line, directly behind the
+    ENDM / the macro call or behind a continued line, in the main file and in an include file with a second faulty
+    line behind the INCLUDE in the main file - so that the save / restore of the physical line counter per FILE tag
+    (tag.startLine, st.momLine in MacroProc = StartLine, MomLineCounter in as.c) is exercised) and every EXPECT program (all announcements of
     <= 2 / 3 numbers x <= 2 / 3 occurring messages, nested / unclosed / stray / argument-less forms, EXPECT in a
     macro) TLC checks PositionIsPlanted, NoCleanLineNamed, PositionsIdentify, ExpectExact, ExpectProtocol.
     (MacroProc_MC of C11 additionally checks PosAgree for every statement of every program it explores.)
@@ -44,7 +48,7 @@ from vlib.report import Report
 PID = "C20"
 ALLDEVS = ["EmptyBodyPop", "IrpcEmptyOnce", "TokenStraddle", "ShiftExcess", "IrpPosNext", "IrpDoubleCleanup"]
 FIXED_ALL = "{" + ", ".join('"%s"' % d for d in ALLDEVS) + "}"
-FAMILIES = ["main", "incl", "expect"]
+FAMILIES = ["main", "incl", "after", "expect"]
 DIALECT = "68000"
 INVS = "PositionIsPlanted NoCleanLineNamed PositionsIdentify ExpectExact ExpectProtocol"
 
@@ -278,6 +282,11 @@ and the mutant's own ctest result recorded (8 of 9 mutants pass all 201 golden t
   -gnuerrors names the outermost instead of the innermost file            -> VIOLATION   (ctest 201/201)
   INCLUDE_Restorer restores the line counter + 1                          -> VIOLATION   (ctest 201/201)
   nested EXPECT accepted silently                                         -> VIOLATION   (ctest 201/201)
+Second round (a seeded change was missed: ExpandINCLUDE_Core no longer saves MomLineCounter in the FILE tag; no
+faulty line ever followed a completed construct / a returned INCLUDE in the same file) - family `after` added, then
+on a copy of the current /repo:
+  `Tag->StartLine = MomLineCounter` deleted (the seed)                    -> VIOLATION (after)   (ctest 201/201)
+  INCLUDE_Restorer does not restore MomLineCounter                        -> VIOLATION           (ctest 201/201)
 The proposed fix of IRP_GetPos applied: 0 violations, no known finding hit (the as-coded prediction of the model
 equals the real output in all 576 affected runs before the fix, the declarative expectation after it).
 """
